@@ -261,6 +261,12 @@ fn predict(hist: &[Kind], cfg: &Cfg) -> Vec<Pred> {
         if d == Dec::No || d == Dec::Ambiguous {
             dead(acc, &outs);
         }
+        if (d == Dec::Yes || d == Dec::Ambiguous) && st == St::LgSession(false) && cfg.secret {
+            // the authentication Cookie Request is optional: a router may make it of a Login-intent client too
+            let mut o = outs.clone();
+            o.push(Exp::CookieReq("passage:authentication"));
+            step(St::LgAuth, o, hist, i + 1, cfg, acc);
+        }
         if d == Dec::Yes || d == Dec::Ambiguous {
             let mut o = outs.clone();
             o.extend(add);
@@ -331,6 +337,8 @@ fn build(hist: &[Kind], cfg: &Cfg) -> Case {
         }
     }
     case.horizon_ms = 60_000;
+    // (the histories of this search are explicit: the client sends exactly these packets)
+    case.strict_script = true;
     case
 }
 
